@@ -31,6 +31,7 @@ import (
 	"strings"
 	"sync"
 	"sync/atomic"
+	"syscall"
 	"testing"
 	"time"
 
@@ -254,6 +255,10 @@ func getFixture() (*fixture, error) {
 		if d := os.Getenv("VERIF_OUT"); d != "" && os.Getenv("VERIF_FUZZ") != "" {
 			if old, err := os.Getwd(); err == nil && os.Chdir(d) == nil {
 				defer os.Chdir(old)
+			}
+			// the fuzz engine discards the stderr of its workers: keep the Go runtime's crash report of a dying worker
+			if fh, err := os.OpenFile(filepath.Join(d, fmt.Sprintf("fuzz_worker_%d.stderr", os.Getpid())), os.O_CREATE|os.O_WRONLY|os.O_APPEND, 0o644); err == nil {
+				syscall.Dup2(int(fh.Fd()), 2)
 			}
 		}
 		p, err := proxyfix.Shared()
